@@ -141,7 +141,8 @@ func c12Check(res *core.CaseResult, base, ref string) {
 		res.Violate("wrong-document-requested "+c12RefClass(ref), fmt.Sprintf("%q against %q: loader asked for %q, RFC 3986 gives %q", ref, base, requests[0], wantDoc), wit)
 	}
 	// the normaliser itself, fragment carried over
-	got := spec.VerifNormalizeURI(ref, base)
+	// (the package only ever hands normalizeURI a base it has canonicalised before)
+	got := spec.VerifNormalizeURI(ref, spec.VerifNormalizeBase(base))
 	gu, gerr := url.Parse(got)
 	if gerr != nil {
 		res.Violate("normalizeURI-unparsable-result", got, wit)
